@@ -104,6 +104,9 @@ func runProgram(e *lib.Env, src, mode string, include bool) runOutcome {
 	if mode == "php" {
 		ext = ".php"
 	}
+	if mode == "html" {
+		ext = ".html"
+	}
 	p := filepath.Join(dir, fmt.Sprintf("q%d%s", n, ext))
 	_ = os.WriteFile(p, []byte(src), 0o644)
 	entry := p
@@ -221,10 +224,10 @@ func minimise(e *lib.Env, p *program, msg string) (key string, min *program, sub
 		}
 	}
 	modeAny := false
-	if !cur.Shebang {
+	if !cur.Shebang && cur.Mode != "html" {
 		hasHTML := false
 		for _, c := range cur.Head {
-			if c.Kind == "html" || c.Kind == "html-ml" {
+			if phpOnlyChunk[c.Kind] {
 				hasHTML = true
 			}
 		}
@@ -239,7 +242,9 @@ func minimise(e *lib.Env, p *program, msg string) (key string, min *program, sub
 		}
 	}
 	faultAny := false
-	if cur.Fault.Kind != "throw" {
+	if cur.Mode == "html" {
+		// only the html faults exist on this path
+	} else if cur.Fault.Kind != "throw" {
 		c := cur
 		g := &genState{r: e.Rand("minimise-fault")}
 		c.Fault = g.fault("throw")
